@@ -85,3 +85,19 @@ def irv_winners(cands, ballots):
 
     rec(list(cands))
     return winners
+
+
+def irv_order(cands, ballots):
+    """one true elimination order of the ballots (ties broken towards the candidate listed first), winner last."""
+    standing, order = list(cands), []
+    while len(standing) > 1:
+        t = {c: 0 for c in standing}
+        for b in ballots:
+            r = [x for x in b if x in standing]
+            if r:
+                t[r[0]] += 1
+        lo = min(t.values())
+        c = next(x for x in standing if t[x] == lo)
+        order.append(c)
+        standing.remove(c)
+    return order + standing
